@@ -205,13 +205,19 @@ def job(j):
             v = check_case(version, f, buf, dest)
             viols += v
     # non-messages
-    for obj in ("invalid", None, 5, {}, b"1;1;1;0;2;x", ["1", "1"]):
+    from types import SimpleNamespace
+
+    from aiomysensors.model.node import Child, Node
+
+    partial = [Node(3, 17, "2.0"), Child(1, 3), {"node_id": 1, "child_id": 1}, SimpleNamespace(node_id=1, child_id=255, command=3, message_type=2),
+               SimpleNamespace(node_id=1, child_id=1, command=1, ack=0, message_type=2), SimpleNamespace(payload="x"), (1, 1, 1, 0, 2, "x"), "1;1;1;0;2;x\n", 1.5, object()]
+    for obj in ["invalid", None, 5, {}, b"1;1;1;0;2;x", ["1", "1"], *partial]:
         n += 1
         s = build(version, dest)
         out = s.send(obj, None)
         if not (out.kind == "raise" and isinstance(out.exc, InvalidMessageError)):
             viols.append(
-                (f"C12|non-message|{type(obj).__name__}", f"[{version}] send({obj!r}) gave {out.describe()}, expected the invalid-message error", {"version": version, "obj": repr(obj), "dest": dest, "nonmsg": True})
+                (f"C12|non-message|{type(obj).__name__}", f"[{version}] send({obj!r}) gave {out.describe()}, expected the invalid-message error", {"version": version, "obj": repr(obj)[:80], "dest": dest, "nonmsg": True})
             )
     return n, viols
 
